@@ -165,7 +165,18 @@ static std::string show_reply(const reply & r) { return std::to_string(r.get_cod
 static std::string show_replies(const replies & rs)
 {
     std::string out;
-    for (const reply & r : rs.get_replies()) { if (!out.empty()) out += "|"; out += show_reply(r); }
+    bool all_positive = !rs.get_replies().empty();
+    std::string joined;
+    for (const reply & r : rs.get_replies())
+    {
+        if (!out.empty()) { out += "|"; joined += "\r\n"; }
+        out += show_reply(r);
+        joined += r.get_status_string();
+        all_positive = all_positive && r.is_positive();
+    }
+    // what the aggregate says about itself must be what its members say (positive iff all are, texts joined by CR LF)
+    if (rs.is_positive() != all_positive || rs.get_status_string() != joined)
+        out += "|AGGREGATE-MISMATCH:is_positive=" + std::string(rs.is_positive() ? "1" : "0");
     return out.empty() ? "-" : out;
 }
 
